@@ -17,19 +17,57 @@ class CannotTabulate(Exception):
 
 # ------------------------------------------------------------------------------------ atom naming
 
-def obj_root(ptr, alias):
-    """name of the object a pointer expression denotes: strips Rc::deref / reborrows"""
+def obj_root(ptr, alias, mem=None):
+    """name of the object a pointer / Rc value denotes.  `&Rc` parameters, Rc values, clones of Rc values and
+    the pointer obtained by dereferencing an Rc all name the same object; an Rc obtained by upgrading the weak
+    link FIELD of object X is named X.FIELD."""
     p = strip_upd(ptr)
-    while True:
-        if p[0] == 'pcall' and re.search(r'as std::ops::Deref>::deref$', p[1]) and len(p[2]) == 1:
-            p = strip_upd(p[2][0])
-            continue
-        if p[0] == 'refval':
+    for _ in range(20):
+        k = p[0]
+        if k == 'rcptr' or k == 'refval':
             p = strip_upd(p[1])
-            continue
-        break
+        elif k == 'ref' and mem is not None and p[1][0][0] == 'loc' and p[1] in mem:
+            p = strip_upd(mem[p[1]])       # reference to a local that holds an Rc value
+        elif k in ('call', 'pcall') and re.search(r'Option::<T>::(unwrap|expect)$', p[1]):
+            x = strip_upd(p[2][0])
+            w = weak_link(x, alias)
+            if w:
+                return alias.get(w, w)
+            break
+        elif k == 'deref' and strip_upd(p[1])[0] in ('param', 'rcptr', 'refval', 'field', 'variant', 'index'):
+            p = strip_upd(p[1])
+        elif k == 'pcall' and re.search(r'as std::ops::Deref>::deref$', p[1]) and len(p[2]) == 1:
+            p = strip_upd(p[2][0])
+        elif k == 'ref' and p[1][0][0] == 'ext' and strip_upd(p[1][0][1])[0] == 'refval':
+            x = strip_upd(p[1][0][1])[1]
+            for e in p[1][1]:
+                x = sym.Explorer.project(x, e)
+            p = strip_upd(x)
+        elif k == 'field' and str(p[2]) == '0' and strip_upd(p[1])[0] == 'variant' and strip_upd(p[1])[2] == 'Some':
+            x = strip_upd(strip_upd(p[1])[1])
+            w = weak_link(x, alias)
+            if w:
+                return alias.get(w, w)
+            break
+        elif k == 'field' and strip_upd(p[1])[0] == 'agg':
+            p = strip_upd(sym.Explorer.project(strip_upd(p[1]), ('f', p[2])))
+        else:
+            break
     s = show(noepoch(p))
     return alias.get(s, s)
+
+
+def weak_link(x, alias):
+    """Weak::upgrade(&OBJ.cell.FIELD) -> 'OBJ.FIELD'"""
+    if x[0] in ('pcall', 'call') and x[1].endswith('::upgrade') and len(x[2]) == 1:
+        r = strip_upd(x[2][0])
+        if r[0] == 'ref' and len(r[1][1]) == 1 and r[1][1][0][0] == 'f' and r[1][0][0] == 'ext':
+            cellp = strip_upd(r[1][0][1])
+            if cellp[0] == 'cell':
+                rr = strip_upd(cellp[1])
+                if rr[0] == 'ref' and rr[1][0][0] == 'ext':
+                    return '%s.%s' % (obj_root(rr[1][0][1], alias), r[1][1][0][1])
+    return None
 
 
 def atom_name(term, alias):
@@ -66,7 +104,7 @@ def atom_name(term, alias):
         s = '%s(%s)' % (m.group(1) if m else short(t[1]), ', '.join(args))
         return alias.get(s, s)
     if k == 'discr':
-        inner = atom_name(t[1], alias)
+        inner = weak_link(strip_upd(t[1]), alias) or atom_name(t[1], alias)
         if inner is None:
             inner = show(noepoch(t[1]))
         s = 'discr(%s)' % inner
